@@ -627,8 +627,8 @@ static BG_THREADS_SEEN: AtomicUsize = AtomicUsize::new(0);
 /// does not jump while one is running, so the stamps of its system calls are exact.
 static VBUSY: AtomicI64 = AtomicI64::new(0);
 
-/// A background operation has finished but the wake-up of the worker that awaits it may still be
-/// in flight: virtual time waits for that wake-up (or 200 ms real time, whichever comes first).
+/// A background operation has finished but the task that awaits it may not have seen the result
+/// yet: virtual time waits until it has ("bg:merge:done" / "bg:sync:done").
 static VWAKE: AtomicI64 = AtomicI64::new(0);
 static VWAKE_SINCE_NS: AtomicI64 = AtomicI64::new(0);
 /// CLOCK_MONOTONIC at `vtime_enable`: the worker's clock is real elapsed time plus the offset.
@@ -655,6 +655,16 @@ pub fn vtime_busy(delta: i64) {
         VWAKE.fetch_add(1, Ordering::SeqCst);
     }
 }
+
+/// The background task has seen the result of a blocking operation it was waiting for.
+pub fn vtime_seen() {
+    let v = VWAKE.fetch_sub(1, Ordering::SeqCst) - 1;
+    if v < 0 {
+        VWAKE.store(0, Ordering::SeqCst);
+    }
+}
+/// Times the wait for a result ended by its cap (expected: 0).
+pub static VWAKE_TIMEOUTS: AtomicI64 = AtomicI64::new(0);
 
 pub fn vtime_enable(on: bool) {
     VTIME_ENABLED.store(on, Ordering::SeqCst);
@@ -829,7 +839,10 @@ pub unsafe extern "C" fn epoll_wait(ep: c_int, evs: *mut libc::epoll_event, max:
         IDLE_NO_TIMER.store(false, Ordering::SeqCst);
         return r;
     }
-    if !VIRT.try_with(|v| v.get()).unwrap_or(false) || timeout <= 0 {
+    if !VIRT.try_with(|v| v.get()).unwrap_or(false) {
+        return libc::syscall(libc::SYS_epoll_wait, ep, evs, max, timeout) as c_int;
+    }
+    if timeout <= 0 {
         return libc::syscall(libc::SYS_epoll_wait, ep, evs, max, timeout) as c_int;
     }
     // Virtual time: poll for real readiness (with a short real grace for an in-flight
@@ -838,17 +851,19 @@ pub unsafe extern "C" fn epoll_wait(ep: c_int, evs: *mut libc::epoll_event, max:
         let grace = VGRACE_MS.load(Ordering::SeqCst).min(timeout as i64).max(0) as c_int;
         let r = libc::syscall(libc::SYS_epoll_wait, ep, evs, max, grace) as c_int;
         if r != 0 {
-            // any wake-up lets tokio collect every finished blocking operation
-            VWAKE.store(0, Ordering::SeqCst);
             return r;
         }
         if VHOLD.load(Ordering::SeqCst) || VBUSY.load(Ordering::SeqCst) > 0 {
             continue;
         }
         if VWAKE.load(Ordering::SeqCst) > 0 {
-            if mono_ns() - VWAKE_SINCE_NS.load(Ordering::SeqCst) < 200_000_000 {
+            // the task that awaits the operation reports when it has seen the result (`vtime_seen`);
+            // the cap is for a task that ended instead (its operation panicked)
+            if mono_ns() - VWAKE_SINCE_NS.load(Ordering::SeqCst) < 5_000_000_000 {
                 continue;
             }
+            VWAKE_TIMEOUTS.fetch_add(1, Ordering::SeqCst);
+            eprintln!("vtime: the result of a background operation was not seen by its task for 5 s");
             VWAKE.store(0, Ordering::SeqCst);
         }
         let now = vnow_ns();
